@@ -1248,7 +1248,17 @@ namespace ipr {
       }
 
       void visit(const Type& t) final { pp << xpr_type(t); }
-      void visit(const Expr& e) final { pp << xpr_assignment_expression(e); }
+      void visit(const Expr& e) final
+      {
+         // An expression no precedence level knows how to print would otherwise be
+         // parenthesized and sent back here by the primary-expression fallback, forever.
+         struct Top : xpr::Assignment_expr {
+            using xpr::Assignment_expr::Assignment_expr;
+            void visit(const Expr& e) final { Missing_overrider{ }(e); }
+         };
+         Top impl(pp);
+         e.accept(impl);
+      }
       void visit(const Stmt& s) final { pp << xpr_stmt(s); }
       void visit(const Decl& d) final
       {
